@@ -773,6 +773,7 @@ func (vc *VC) enterLoop(li *loopInfo, pre *State) (*State, error) {
 		}
 	}
 	li.headState = head.clone()
+	head.iter = li.headState
 	return head, nil
 }
 
